@@ -117,11 +117,43 @@ Proof.
   - rewrite !map_map. reflexivity.
 Qed.
 
+(* ---------- SELECT .. FROM node WHERE w ---------- *)
+Definition sel_n (w : bx) : sel :=
+  {| s_tab := TabN; s_alias := 0; s_joins := []; s_where := w; s_cols := [ECol 0 ColId]; s_order := [ECol 0 ColId] |}.
+Lemma sel_envs_n : forall w,
+  sel_envs d (sel_n w) = map env_c (filter (fun n => is_true (beval d (env_c n) w)) (ns d)).
+Proof.
+  intros w. unfold sel_envs, sel_n. cbn [s_joins s_tab s_alias s_where fold_left rows_of].
+  rewrite map_map. rewrite filter_map_swap. reflexivity.
+Qed.
+
+(* ---------- SELECT .. FROM c, c AS c_1 WHERE w ---------- *)
+Definition env_cc (ab : crow * crow) : env := [(1, grow_c (snd ab)); (0, grow_c (fst ab))].
+Lemma sel_envs_sibs : forall sc,
+  sel_envs d (sel_sibs sc) =
+  map env_cc (filter (fun ab => is_true (beval d (env_cc ab) (s_where (sel_sibs sc)))) (pairs_cc d)).
+Proof.
+  intros sc. unfold sel_envs. cbn [sel_sibs s_joins s_tab s_alias fold_left rows_of]. unfold join_step.
+  cbn [f_alias f_on f_tab f_outer rows_of andb beval is_true].
+  rewrite map_map, flat_map_map.
+  rewrite <- (filter_map_swap _ _ env_cc (fun e => is_true (beval d e (s_where (sel_sibs sc))))). f_equal.
+  unfold pairs_cc. rewrite map_flat_map. apply flat_map_ext'. intros a.
+  assert (Hf : forall l : list grow, filter (fun _ => true) l = l).
+  { induction l as [|x l IH]; [reflexivity|]. cbn [filter]. rewrite IH. reflexivity. }
+  rewrite Hf, !map_map. reflexivity.
+Qed.
+
+Lemma same_parent_cmp : forall a b, is_true (cmp3 OEq (c_pid a) (c_pid b)) = same_parent a b.
+Proof.
+  intros a b. unfold same_parent. destruct (c_pid a), (c_pid b); try reflexivity.
+  cbn [cmp3 cmpZ]. apply is_true_tv_of_bool.
+Qed.
+
 (* ---------- every shape ---------- *)
 Theorem core_rows_meaning : forall q, query_ok d q = true ->
   core_rows d (orm_to_core d q) = meaning_rows d q.
 Proof.
-  intros q Hok. destruct q as [c|k|outer t sp sc m|outer sc sp|sc|a b]; cbn [orm_to_core core_rows meaning_rows].
+  intros q Hok. destruct q as [c|k|outer t sp sc m|outer sc sp|sc|a b|c|vals sc]; cbn [orm_to_core core_rows meaning_rows].
   - (* select(P).where(c) *)
     unfold sel_rows. rewrite sel_envs_p, map_map. cbn [query_ok] in Hok.
     rewrite (filter_ext' _ (fun p => is_true (beval d (env_p p) (tr_pcrit d 0 c))) (fun p => is_true (peval d p c))).
@@ -162,6 +194,22 @@ Proof.
     + rewrite (filter_ext' _ (fun p => is_true (beval d (env_p p) (tr_pcrit d 0 b))) (fun p => is_true (peval d p b))).
       2:{ intros p. f_equal. apply pcrit_tr; [reflexivity | discriminate | exact Hb]. }
       apply map_ext'. intros p. reflexivity.
+  - (* select(Node).where(c) *)
+    change (sel_rows d (sel_n (tr_ncrit 0 c)) =
+            map (fun n => ([Some (c_id n)], [Some (c_id n)])) (filter (fun n => is_true (neval d n c)) (ns d))).
+    unfold sel_rows. rewrite sel_envs_n, map_map.
+    rewrite (filter_ext' _ (fun n => is_true (beval d (env_c n) (tr_ncrit 0 c))) (fun n => is_true (neval d n c))).
+    2:{ intros n. f_equal. apply ncrit_tr; [reflexivity | discriminate]. }
+    apply map_ext'. intros n. reflexivity.
+  - (* the single-table subclass twice *)
+    unfold sel_rows. rewrite sel_envs_sibs, map_map.
+    rewrite (filter_ext' _ (fun ab => is_true (beval d (env_cc ab) (s_where (sel_sibs sc))))
+               (fun ab => (same_parent (fst ab) (snd ab) && is_true (sxeval sc (c_y (snd ab)))) &&
+                          (is_sub (fst ab) && is_sub (snd ab)))).
+    2:{ intros [a b]. cbn [sel_sibs s_where beval]. rewrite !is_true_and3, sx_tr. unfold sub_crit.
+        cbn [beval eeval lookup Nat.eqb env_cc fst snd gcol grow_c g_pid g_y g_kind map].
+        rewrite same_parent_cmp, !sub_crit_is_sub. reflexivity. }
+    apply map_ext'. intros [a b]. reflexivity.
 Qed.
 
 End Shapes.
